@@ -57,8 +57,8 @@ func scC16Reverse(w *World, a Args, rng *rand.Rand) error {
 		case "before": // the handler only calls back after the connection is gone
 			go victim.CallT("callbackafter", tok, patience(3*time.Second))
 			w.WaitRunning(tok, time.Second)
-			vpc.Kill("fin")
 			w.Rec.Emit("WireFault", "conn", 1, "fault", "kill/fin", "dir", "both", "frame", 0)
+			vpc.Kill("fin")
 		case "request": // the reverse request frame (server to client) is cut
 			vpc.AddRule(&Rule{Dir: S2C, Frame: 0, Pos: a.Str("pos", "cut-payload")})
 			go victim.CallT("callback", tok, patience(3*time.Second))
